@@ -9,6 +9,13 @@
    empty group left at a key's path - by the removal of `t.n.m`, or by a failed put below it - no longer blocks the JSON
    write of `t.n`: empty groups are therefore unobservable and the file is modelled as the flat list of its data nodes).
 
+   The store holds VALUES: a content id stands for the value as it was when it was handed to write / replace; what
+   the caller does to its object afterwards, or to an object a load returned, is not an operation of the model.  The
+   correspondence mutates the objects it handed over and expects every later load - same handle, re-opened handle,
+   unfiltered observer - to return the value as written (its JSON round-trip for non-pandas data: tuples come back as
+   lists).  One exception is modelled faithfully, open finding F-AL: a load returns the cached object itself, so an
+   in-place change of a LOADED object is an operation after all - [Mutate k j] - that replaces the cache entry.
+
    Keys are the list of their dot-separated parts (strings interned by the harness, 0 = the empty string;
    `metadata` = 1, `keyspace` = 2).  Data values are content ids (interned canonical forms).
 
@@ -121,7 +128,8 @@ Definition writable (d : data) : bool := match d with DNone | DUnwritable => fal
 Inductive out := Done | Loaded (i : Z) | LoadedReserved | Rej (e : err).
 Inductive op :=
   | Write (k : key) (d : data) | Load (k : key) | Remove (k : key) | Replace (k : key) (d : data)
-  | ClearCache | Reopen (f : Z).      (* Reopen f = Artifact(path, filter_terms = f); f < 0: terms the constructor refuses *)
+  | ClearCache | Reopen (f : Z)
+  | Mutate (k : key) (j : Z).         (* the CALLER changed in place the object a load of k returned; its value is now j *)      (* Reopen f = Artifact(path, filter_terms = f); f < 0: terms the constructor refuses *)
 
 Section Ops.
 (* what the UNFILTERED hdf.load gives back for a stored content: [rt true] for tables, [rt false] for JSON payloads
@@ -223,6 +231,15 @@ Definition step (s : store) (o : op) : store * out :=
   | Remove k => remove s k
   | Replace k d => replace s k d
   | ClearCache => ({| file_of := file_of s; keyspace := keyspace s; keys := keys s; cache := []; filt := filt s |}, Done)
+  | Mutate k j =>
+      (* Artifact.load 106-116 returns self._cache[key] - the cached OBJECT, not a copy (open finding F-AL): what the
+         caller does to it in place is what the next load through this handle returns, until the entry is dropped
+         (remove / replace / clear_cache / a new Artifact) *)
+      match find k (cache s) with
+      | Some _ => ({| file_of := file_of s; keyspace := keyspace s; keys := keys s; cache := (k, j) :: del k (cache s);
+                      filt := filt s |}, Done)
+      | None => (s, Done)
+      end
   | Reopen f => if f <? 0 then (s, Rej EOther)
                 else ({| file_of := file_of s; keyspace := keyspace s; keys := keyspace s; cache := []; filt := f |}, Done)
   end.
@@ -265,14 +282,15 @@ Definition spec_step (m : amap) (o : op) : amap * bool :=
       | None => (m, false)
       end
   | Load k => (m, is_some (find k m) || key_eqb k ks_key)
-  | ClearCache => (m, true)
+  | ClearCache | Mutate _ _ => (m, true)
   | Reopen f => (m, 0 <=? f)
   end.
 Fixpoint spec_run (m : amap) (ops : list op) : amap :=
   match ops with [] => m | o :: r => spec_run (fst (spec_step m o)) r end.
 
 (* an operation sequence with the handles' filters forgotten *)
-Definition erase (o : op) : op := match o with Reopen f => Reopen (if f <? 0 then -1 else 0) | _ => o end.
+Definition erase (o : op) : op :=
+  match o with Reopen f => Reopen (if f <? 0 then -1 else 0) | Mutate k _ => Mutate k 0 | _ => o end.
 
 Definition is_rej (o : out) : bool := match o with Rej _ => true | _ => false end.
 Definition op_key (o : op) : option key :=
